@@ -34,11 +34,17 @@ WHAT THE CLOSED-SYSTEM THEOREMS OF THIS FILE COVER, AND WHAT NOT (every `…_clo
 * quiescence: the single-frame theorems also conclude that afterwards every RX FIFO is empty (no second copy
   waiting); the fragment theorems (`C05_two_nodes_frag*`, `C05_neighbours_frag_closed_partial`) export the same
   conjunct about the state after the receiver's final `update()`.
-* NOT covered by any theorem: schedules other than `runOthers`; packet loss; `send()` of the mesh API
-  (`RF24Mesh.send`); fragmented messages over more than one hop; system types 128..191 over ONE hop.
+* NOT covered by any GENERAL theorem: schedules other than `runOthers`; packet loss; `send()` of the mesh API
+  (`RF24Mesh.send`); fragmented messages over more than one hop (only CONCRETE runs: the
+  `C05_route_frag_*_instance_partial` theorems at the end of the file, kernel evaluation of ONE network / ONE
+  message each; and, ∀ env, the router-side clause `C05_local_forward_not_queued`); system types 128..191 over
+  ONE hop.
   Covered: user types 0..127 over one hop (`C05_neighbours_closed_partial`), types 0..64 over any route
   (`C05_route_closed_partial`), types 65..191 over ≥ 2 hops with the side conditions stated there
-  (`C05_route_ack_closed_partial`).
+  (`C05_route_ack_closed_partial`); "to no other node's queue / routers do not hand the frame to their
+  application" with the quantifier over all nodes of the network written out
+  (`C05_route_others_closed_partial`, `C05_route_ack_others_closed_partial`); the boundary lengths 0, 24, 25, 144
+  (`…_boundary_closed_partial`); fragmentation off (`…_fragoff_closed_partial`).
 
 * `C05_local_*`  one node against **any** environment (every fuel, world, arrival script, fault
                  list, behaviour of the other nodes): what one iteration of `_net_update()` does
@@ -54,6 +60,17 @@ WHAT THE CLOSED-SYSTEM THEOREMS OF THIS FILE COVER, AND WHAT NOT (every `…_clo
 * `C05_*_closed*`  the same theorems with `L3Contracts` discharged (`l3contracts`, `NrfProofs/L3Discharge.lean`).
 * `C05_two_nodes_frag*` a FRAGMENTED message (25..144 bytes) between two neighbours, end to end in the
                  closed system (`NrfProofs/C05Frag{A,B,C,D,E}.lean`); at the end of the file.
+* round 2 additions (end of the file): `C05_route_others_closed_partial`, `C05_route_ack_others_closed_partial`
+                 (corollaries: every node other than the destination — origin, routers, bystanders — keeps its
+                 application queue); `C05_*_boundary_closed_partial` (instantiations at the lengths 0, 24, 25, 144);
+                 `C05_*_fragoff_closed_partial` (sender with `max_message_length = 24`);
+                 `C05_local_forward_not_queued` (∀ env: a router's whole queue object is unchanged by forwarding
+                 a frame of ANY type, fragments included);
+                 `C05_route_frag_{two_hops,types,fork,three_hops,all_pairs}_instance_partial` — NOT general theorems:
+                 kernel-evaluated runs (`decide +kernel`, NrfProofs/C05FragInst{A..F}.lean) of a fragmented
+                 message over two and three hops on three concrete networks and over ALL 42 ordered pairs of a
+                 seven-node tree; the general statement stays open.  The same sessions are in `corpus/C05/`, i.e.
+                 they are also executed on the real classes by the correspondence run.
 -/
 import NrfProofs.C05Forward
 import NrfProofs.C05Closed
@@ -64,6 +81,15 @@ import NrfProofs.C05Reasm
 import NrfProofs.L3Discharge
 import NrfProofs.C05FragE
 import NrfProofs.C13HopsExample
+import NrfProofs.C05FragInstA
+import NrfProofs.C05FragInstB
+import NrfProofs.C05FragInstC
+import NrfProofs.C05FragHold
+import NrfProofs.C05ExampleNoFrag
+import NrfProofs.C05FragInstD
+import NrfProofs.C05FragInstE
+import NrfProofs.C05FragInstF
+import NrfProofs.C05ExampleSevenOk
 
 namespace Nrf.Props.C05
 open Nrf Nrf.Net Nrf.Spec Nrf.Proofs Nrf.Props.C04
@@ -1485,5 +1511,771 @@ example : ∃ s1 jd, jd < 4 ∧ Example.Hops.tree4 jd = [] ∧
       · exact absurd htj (by decide)
       · exact absurd htj (by decide)
       · exact absurd htj (by decide))
+
+/-! ## additions of round 2: bystanders, boundary lengths, fragment trains over routes (instances)
+
+### helper facts about the concrete chains used by the non-vacuity examples below
+(`Example.three`: `0o0 — 0o1 — 0o11`, the grandchild about to write; `Example.Hops.four`:
+`0o0 — 0o1 — 0o11 — 0o111`, the great-grandchild about to write; all radios fresh, all queues empty) -/
+
+private theorem three_lt (i : Nat) (hi : i < Example.three.nodes.length) : i = 0 ∨ i = 1 ∨ i = 2 := by
+  have : i < 3 := hi
+  omega
+
+private theorem three_ndef (i : Nat) : val (Example.tree3 i) ≠ NETWORK_DEFAULT_ADDR := by
+  match i with
+  | 0 => decide
+  | 1 => decide
+  | 2 => decide
+  | n + 3 =>
+    show val [5, 5, 5, 5 - n % 4] ≠ 0o4444
+    simp only [val]
+    omega
+
+private theorem three_route (fr : Frame) : ∀ k, 1 ≤ k → k ≤ dist (Example.tree3 2) [] →
+    ∃ j, j < Example.three.nodes.length ∧ Example.tree3 j = hops k (Example.tree3 2) [] ∧
+      NotDupFrame (Example.three.radioAt j) fr := by
+  intro k hk1 hk2
+  have hd : dist (Example.tree3 2) [] = 2 := by decide
+  rw [hd] at hk2
+  have : k = 1 ∨ k = 2 := by omega
+  rcases this with rfl | rfl
+  · exact ⟨1, by decide, by decide, NotDupFrame.of_none (by decide)⟩
+  · exact ⟨0, by decide, by decide, NotDupFrame.of_none (by decide)⟩
+
+private theorem three_quiet : ∀ i, i < Example.three.nodes.length → (Example.three.radioAt i).rxFifo = [] := by
+  intro i hi
+  rcases three_lt i hi with rfl | rfl | rfl <;> decide
+
+private theorem three_acc (fr : Frame) : ∀ j, j < Example.three.nodes.length → Example.tree3 j = [] →
+    Accepts (Example.three.nodeAt j).queue fr := by
+  intro j hj htj
+  rcases three_lt j hj with rfl | rfl | rfl
+  · exact ⟨by decide, by intro g hg; cases hg⟩
+  · exact absurd htj (by decide)
+  · exact absurd htj (by decide)
+
+private theorem four_route (fr : Frame) : ∀ k, 1 ≤ k → k ≤ dist (Example.Hops.tree4 3) [] →
+    ∃ j, j < Example.Hops.four.nodes.length ∧ Example.Hops.tree4 j = hops k (Example.Hops.tree4 3) [] ∧
+      NotDupFrame (Example.Hops.four.radioAt j) fr := by
+  intro k hk1 hk
+  have hd : dist (Example.Hops.tree4 3) [] = 3 := by decide
+  rw [hd] at hk
+  have : k = 1 ∨ k = 2 ∨ k = 3 := by omega
+  rcases this with rfl | rfl | rfl
+  · exact ⟨2, by decide, by decide, NotDupFrame.of_none (by decide)⟩
+  · exact ⟨1, by decide, by decide, NotDupFrame.of_none (by decide)⟩
+  · exact ⟨0, by decide, by decide, NotDupFrame.of_none (by decide)⟩
+
+private theorem four_quiet : ∀ i, i < Example.Hops.four.nodes.length → (Example.Hops.four.radioAt i).rxFifo = [] := by
+  intro i hi
+  rcases Example.Hops.four_lt i hi with rfl | rfl | rfl | rfl <;> decide
+
+private theorem four_acc (fr : Frame) : ∀ j, j < Example.Hops.four.nodes.length → Example.Hops.tree4 j = [] →
+    Accepts (Example.Hops.four.nodeAt j).queue fr := by
+  intro j hj htj
+  rcases Example.Hops.four_lt j hj with rfl | rfl | rfl | rfl
+  · exact ⟨by decide, by intro g hg; cases hg⟩
+  · exact absurd htj (by decide)
+  · exact absurd htj (by decide)
+  · exact absurd htj (by decide)
+
+/-! ### "and to no other node's queue" / "routing nodes forward such frames without handing them to their own application"
+
+`DeliveredOnce` (third conjunct) already says that every node object other than the destination's has the same
+application queue (`queue.frames`, what `available()` / `read()` see) before and after.  The two corollaries
+below state that clause on its own, with the quantifier over ALL nodes of the network written out, and once more
+for the nodes ON the route (the origin, `k = 0`, and every router, `1 ≤ k < dist`), which are the ones that
+handled the frame.  They are corollaries of `C05_route_closed_partial` / `C05_route_ack_closed_partial` (same
+hypotheses, same ONE schedule, loss-free, single frame), nothing more. -/
+
+/-- **No other queue, types 0..64, any tree route** (corollary of `C05_route_closed_partial`, same hypotheses:
+    closed `runOthers` system — ONE schedule —, loss-free, `NetOk` network, single frame of at most 24 bytes,
+    route nodes present with the non-duplicate condition, all RX FIFOs empty, destination's queue accepting).
+    After `write()` (which returns `True`) and the first hop's `update()`:
+    * the network has the same node objects as before;
+    * **every node `i` of the network whose address is not the destination's — bystanders off the route,
+      the origin, and every router — has exactly the application queue it had before**;
+    * in particular (spelled out for the route): for every `k < dist`, the node at position `k` of the tree
+      route (`k = 0`: the origin; `1 ≤ k`: the routers, which did receive and forward the frame) exists in the
+      network and its application queue is unchanged.
+    Not covered: as `C05_route_closed_partial` (other schedules, loss, fragments, types above 64). -/
+theorem C05_route_others_closed_partial (cfg : AddrCfg) (hcfg : CfgOk cfg) (L : LinkCfg)
+    (tree : Nat → List Nat) (s : NetState) (a : Nat) (d : List Nat) (ty : Int) (msg : Bytes)
+    (hok : NetOk cfg L tree s) (hcur : s.cur = a) (hact : s.active = [a]) (ha : a < s.nodes.length)
+    (hsize : s.nodes.length ≤ 20000) (hndef : ∀ i, val (tree i) ≠ NETWORK_DEFAULT_ADDR)
+    (hd : IsNode d) (hxd : tree a ≠ d)
+    (hroute : ∀ k, 1 ≤ k → k ≤ dist (tree a) d →
+      ∃ j, j < s.nodes.length ∧ tree j = hops k (tree a) d ∧
+        NotDupFrame (s.radioAt j) (wireCopy (callerFrame (tree a) d s.nextId ty msg)))
+    (hquiet : ∀ i, i < s.nodes.length → (s.radioAt i).rxFifo = [])
+    (hty : 0 ≤ ty ∧ ty ≤ 64) (hlen : msg.length ≤ MAX_FRAG_SIZE)
+    (hmax : msg.length ≤ (s.nodeAt a).maxMessageLength)
+    (hacc : ∀ j, j < s.nodes.length → tree j = d →
+      Accepts (s.nodeAt j).queue (wireCopy (callerFrame (tree a) d s.nextId ty msg))) :
+    ∃ s1 j1, j1 < s.nodes.length ∧ tree j1 = nextHopSpec (tree a) d ∧
+      nexec (apiNetWrite (val d) ty msg AUTO_ROUTING) s =
+        (.ok (true, callerFrame (tree a) d s.nextId ty msg), s1) ∧
+      ∃ r s2, nexec apiUpdate ((s1.ret).callAs j1) = (.ok r, s2) ∧
+        s2.nodes.length = s.nodes.length ∧
+        (∀ i, i < s.nodes.length → tree i ≠ d →
+          (s2.nodeAt i).queue.frames = (s.nodeAt i).queue.frames) ∧
+        (∀ k, k < dist (tree a) d → ∃ j, j < s.nodes.length ∧ tree j = hops k (tree a) d ∧
+          (s2.nodeAt j).queue.frames = (s.nodeAt j).queue.frames) := by
+  obtain ⟨s1, j1, jd, hj1, htj1, hjd, htjd, hw, r, s2, hu, ⟨hl, _, hrest⟩, _⟩ :=
+    C05_route_closed_partial cfg hcfg L tree s a d ty msg hok hcur hact ha hsize hndef hd hxd hroute hquiet
+      hty hlen hmax hacc
+  have hall : ∀ i, i < s.nodes.length → tree i ≠ d →
+      (s2.nodeAt i).queue.frames = (s.nodeAt i).queue.frames := by
+    intro i _ hi
+    exact hrest i (fun e => hi (by rw [e]; exact htjd))
+  refine ⟨s1, j1, hj1, htj1, hw, r, s2, hu, hl, hall, ?_⟩
+  intro k hk
+  rcases Nat.eq_zero_or_pos k with rfl | hk0
+  · exact ⟨a, ha, rfl, hall a ha hxd⟩
+  · obtain ⟨j, hj, htj, _⟩ := hroute k hk0 (by omega)
+    exact ⟨j, hj, htj, hall j hj (by rw [htj]; exact hops_ne_before hk)⟩
+
+/-- non-vacuity: every hypothesis holds on the chain `0o0 — 0o1 — 0o11` (`Example.three`), the grandchild
+    writing `[9, 8, 7]`, type 7, to the master: the router `0o1` (`k = 1`) and the origin (`k = 0`) keep
+    their (empty) queues -/
+example : ∃ s1 j1, j1 < 3 ∧ Example.tree3 j1 = [1] ∧
+    nexec (apiNetWrite (val []) 7 [9, 8, 7] AUTO_ROUTING) Example.three =
+      (.ok (true, callerFrame [1, 1] [] 6 7 [9, 8, 7]), s1) ∧
+    ∃ r s2, nexec apiUpdate ((s1.ret).callAs j1) = (.ok r, s2) ∧ s2.nodes.length = 3 ∧
+      (∀ i, i < 3 → Example.tree3 i ≠ [] →
+        (s2.nodeAt i).queue.frames = (Example.three.nodeAt i).queue.frames) ∧
+      (∀ k, k < 2 → ∃ j, j < 3 ∧ Example.tree3 j = hops k [1, 1] [] ∧
+        (s2.nodeAt j).queue.frames = (Example.three.nodeAt j).queue.frames) :=
+  C05_route_others_closed_partial {} (by decide) Example.L Example.tree3 Example.three 2 [] 7 [9, 8, 7]
+    Example.three_ok rfl rfl (by decide) (by decide) three_ndef (by decide) (by decide) (three_route _) three_quiet
+    (by decide) (by decide) (by decide) (three_acc _)
+
+/-- **No other queue, acknowledged types 65..191, any tree route of two or more hops** (corollary of
+    `C05_route_ack_closed_partial`, same hypotheses).  When `write()` returns (`True`; the whole route and the
+    NETWORK_ACK's way back ran inside it): same node objects; **every node of the network whose address is not
+    the destination's — bystanders, the origin (which received and consumed the NETWORK_ACK frame: it is
+    not handed to its application), every router (which forwarded the message AND relayed or originated the
+    NETWORK_ACK) — has exactly the application queue it had before**; spelled out for the positions
+    `k < dist` of the route.  Not covered: as `C05_route_ack_closed_partial`. -/
+theorem C05_route_ack_others_closed_partial (cfg : AddrCfg) (hcfg : CfgOk cfg) (L : LinkCfg)
+    (tree : Nat → List Nat) (s : NetState) (a : Nat) (d : List Nat) (ty : Int) (msg : Bytes)
+    (hok : NetOk cfg L tree s) (hcur : s.cur = a) (hact : s.active = [a]) (ha : a < s.nodes.length)
+    (hsize : s.nodes.length ≤ 20000) (hndef : ∀ i, val (tree i) ≠ NETWORK_DEFAULT_ADDR)
+    (h2 : 2 ≤ dist (tree a) d)
+    (hroute : ∀ k, 1 ≤ k → k ≤ dist (tree a) d →
+      ∃ j, j < s.nodes.length ∧ tree j = hops k (tree a) d ∧
+        NotDupFrame (s.radioAt j) (wireCopy (callerFrame (tree a) d s.nextId ty msg)))
+    (horig : NotDupFrame (s.radioAt a) (ackOf (wireCopy (callerFrame (tree a) d s.nextId ty msg))))
+    (hquiet : ∀ i, i < s.nodes.length → (s.radioAt i).rxFifo = [])
+    (hty : 65 ≤ ty ∧ ty ≤ 191)
+    (hsys : ty ≤ 127 ∨ ((∀ j, j < s.nodes.length → tree j = d → (s.nodeAt j).retSysMsg = false) ∧
+      ty ≠ 128 ∧ ty ≠ 130 ∧ ty ≠ 131 ∧ ty ≠ 148 ∧ ty ≠ 149 ∧ ty ≠ 150))
+    (hlen : msg.length ≤ MAX_FRAG_SIZE)
+    (hmax : msg.length ≤ (s.nodeAt a).maxMessageLength)
+    (hacc : ∀ j, j < s.nodes.length → tree j = d →
+      Accepts (s.nodeAt j).queue (wireCopy (callerFrame (tree a) d s.nextId ty msg))) :
+    ∃ s1, nexec (apiNetWrite (val d) ty msg AUTO_ROUTING) s =
+        (.ok (true, callerFrame (tree a) d s.nextId ty msg), s1) ∧
+      s1.nodes.length = s.nodes.length ∧
+      (∀ i, i < s.nodes.length → tree i ≠ d →
+        (s1.nodeAt i).queue.frames = (s.nodeAt i).queue.frames) ∧
+      (∀ k, k < dist (tree a) d → ∃ j, j < s.nodes.length ∧ tree j = hops k (tree a) d ∧
+        (s1.nodeAt j).queue.frames = (s.nodeAt j).queue.frames) := by
+  obtain ⟨s1, jd, hjd, htjd, hw, ⟨hl, _, hrest⟩, _⟩ :=
+    C05_route_ack_closed_partial cfg hcfg L tree s a d ty msg hok hcur hact ha hsize hndef h2 hroute horig hquiet
+      hty hsys hlen hmax hacc
+  have hall : ∀ i, i < s.nodes.length → tree i ≠ d →
+      (s1.nodeAt i).queue.frames = (s.nodeAt i).queue.frames := by
+    intro i _ hi
+    exact hrest i (fun e => hi (by rw [e]; exact htjd))
+  have hxd : tree a ≠ d := by
+    intro e; rw [e, dist_self] at h2; omega
+  refine ⟨s1, hw, hl, hall, ?_⟩
+  intro k hk
+  rcases Nat.eq_zero_or_pos k with rfl | hk0
+  · exact ⟨a, ha, rfl, hall a ha hxd⟩
+  · obtain ⟨j, hj, htj, _⟩ := hroute k hk0 (by omega)
+    exact ⟨j, hj, htj, hall j hj (by rw [htj]; exact hops_ne_before hk)⟩
+
+/-- non-vacuity: the chain `0o0 — 0o1 — 0o11 — 0o111` (`Example.Hops.four`), the great-grandchild writing
+    `[9, 8, 7]`, type 100, to the master over three hops: the two routers and the origin keep their queues -/
+example : ∃ s1, nexec (apiNetWrite (val []) 100 [9, 8, 7] AUTO_ROUTING) Example.Hops.four =
+      (.ok (true, callerFrame [1, 1, 1] [] 8 100 [9, 8, 7]), s1) ∧ s1.nodes.length = 4 ∧
+    (∀ i, i < 4 → Example.Hops.tree4 i ≠ [] →
+      (s1.nodeAt i).queue.frames = (Example.Hops.four.nodeAt i).queue.frames) ∧
+    (∀ k, k < 3 → ∃ j, j < 4 ∧ Example.Hops.tree4 j = hops k [1, 1, 1] [] ∧
+      (s1.nodeAt j).queue.frames = (Example.Hops.four.nodeAt j).queue.frames) :=
+  C05_route_ack_others_closed_partial {} (by decide) Example.L Example.Hops.tree4 Example.Hops.four 3 [] 100 [9, 8, 7]
+    Example.Hops.four_ok rfl rfl (by decide) (by decide) Example.Hops.four_ndef (by decide) (four_route _)
+    (NotDupFrame.of_none (by decide)) four_quiet (by decide) (Or.inl (by decide)) (by decide) (by decide)
+    (four_acc _)
+
+/-! ### fragmented messages over MORE THAN ONE hop: what is proved (local, ∀ env) and what is only evaluated (instances)
+
+No general closed-system theorem exists for a fragment train over a route with a router (the reasons — the
+last router answers EVERY fragment with a NETWORK_ACK that fails while the origin is transmitting, which needs
+driver contracts for the failing transmit cycle — are in the section "what is missing" above; they stand).
+What this section adds:
+
+* `C05_local_forward_not_queued` (∀ env, every frame type — in particular the fragment types 148..150): one
+  iteration of a router's `_net_update()` that read a frame for another node hands it to `_write(…, TX_ROUTED)`
+  and the router's whole queue object — application frames AND reassembly cache — is afterwards what it was,
+  whatever the link, the other nodes and the NETWORK_ACK emission inside `_write` do.
+* `C05_route_frag_*_instance_partial`: CONCRETE runs of the model, evaluated by the kernel (`decide +kernel`,
+  NrfProofs/C05FragInst{A..F}.lean): ONE network each (the chains `Example.three`, `Example.Hops.four`, the
+  branching `Example.fork`, the seven-node tree `Example.sevenAt` — there all 42 ordered pairs of nodes), ONE
+  message each (the bytes `0, 1, …, n-1`), ONE schedule (`runOthers`), loss-free.
+  They have no hypotheses (nothing can be vacuous) and say nothing about any other network, content or schedule;
+  they show that the statement of the open theorem — written out above under "what is missing" — is TRUE on
+  these runs, for two and three hops, upwards, downwards and over a common ancestor, for the boundary lengths of
+  every fragment count, and that the acknowledged fragment traffic of the run is exactly the fragment plan of
+  C11, each fragment once per hop. -/
+
+/-- **A router does not queue what it forwards — any frame type, fragments included** (∀ environment).
+    Node `x` of the tree (C04) other than `0o4444` (the address of a node that has none: it does not route), in
+    any state, inside any network; one iteration of its `_net_update()` in which
+    `read()` returned the payload of a well-formed frame `fb` from tree node `o ≠ x` to tree node `d ≠ x`
+    (`allow_multicast` off or not; `d` is a tree node, never the multicast address).  Then the iteration is
+    exactly: `frame_buf := fb; _write(d, TX_ROUTED)` — with outcome `r` in state `s2` — and then, if `r` is a normal
+    return (`True` or `False`, ignored), the rest of the loop from `s2`; if it is an exception, that exception.
+    And in `s2` **the router's queue object is the one it had before** (`NetQueue`: the application's frames, the
+    reassembly cache `_frags`, its validity flag, the size bound), the same node is current.  The frame's type is
+    arbitrary: user types, the fragment types 148 / 149 / 150 (no hypothesis restricts `fb.header.ty`), also the
+    ack-soliciting ones for which `_write` goes on to emit or await a NETWORK_ACK.
+    This is `C05_local_forward` (an unfolding lemma) combined with `C05_local_forward_queue` (the frame lemma for
+    `_write`), stated for one whole iteration. -/
+theorem C05_local_forward_not_queued (f rv : Nat) (x d o : List Nat) (hx : IsNode x) (hd : IsNode d)
+    (ho : IsNode o) (hxd : x ≠ d) (hox : o ≠ x) (hndef : val x ≠ NETWORK_DEFAULT_ADDR)
+    (s s1 : NetState) (b : Bytes) (fb : Frame)
+    (hread : nexec (rfRead (f + 2)) s = (.ok (some b), s1))
+    (hdec : s1.node.frameBuf.unpack b = (fb, true))
+    (hto : fb.header.toNode = val d) (hfrom : fb.header.fromNode = val o)
+    (ha : s1.node.a = nodeSpec x) (hact : s1.cur ∈ s1.active) (hc : s1.cur < s1.nodes.length) :
+    ∃ r s2, nexec (nodeWrite (f + 1) (val d) TX_ROUTED) (s1.withFrame fb) = (r, s2) ∧
+      s2.node.queue = s1.node.queue ∧ s2.cur = s1.cur ∧
+      nexec (netUpdate (f + 3) rv) s =
+        (match r with
+         | .ok _ => nexec (netUpdate (f + 2) 0) s2
+         | .error e => (.error e, s2)) := by
+  have haddr : s1.node.a.addr = val x := by rw [ha]; rfl
+  have hother : fb.header.toNode ≠ s1.node.a.addr := by
+    rw [hto, haddr]
+    exact fun e => hxd (val_inj hx.1 hd.1 e.symm)
+  have hnd : s1.node.a.addr ≠ NETWORK_DEFAULT_ADDR := by rw [haddr]; exact hndef
+  have hstep := C05_local_forward (f + 1) rv s s1 b fb hread hdec (by rw [hto]; exact isValid_val hd)
+    (by rw [hfrom]; exact isValid_val ho) hother (Or.inr (by rw [hto]; exact val_ne_multicast hd)) hnd hc
+  rw [hto] at hstep
+  rcases hw : nexec (nodeWrite (f + 1) (val d) TX_ROUTED) (s1.withFrame fb) with ⟨r, s2⟩
+  have hn : (s1.withFrame fb).node = { s1.node with frameBuf := fb } := node_setNode _ _ hc
+  have hq := C05_local_forward_queue f x d o hx hd ho hxd hox (s1.withFrame fb) s2 r
+    (by simpa using hact) (by rw [hn]; exact ha) (by rw [hn]; exact hfrom) hw
+  refine ⟨r, s2, rfl, ?_, ?_, ?_⟩
+  · rw [hq.1, hn]
+  · rw [hq.2.2.2]; rfl
+  · rw [show f + 3 = (f + 1) + 2 from rfl, hstep, hw]
+    cases r <;> rfl
+
+/-- non-vacuity of `C05_local_forward_not_queued`, every hypothesis instantiated on a REACHABLE state: the state
+    `Inst.routerHolds` the model's run produces (NrfProofs/C05FragHold.lean) — in `Example.three` the grandchild's
+    `write()` of 25 bytes to the master has returned, the router `0o1` enters `update()` with the LAST fragment
+    (type 150) of the message in its RX FIFO; `read()` returns its 9 bytes (`routerHolds_read`, kernel
+    evaluation), they unpack to the fragment frame, the router is tree node `[1]`, the frame goes from `[1, 1]` to
+    `[]` -/
+example : ∃ r s2, nexec (nodeWrite 101 (val []) TX_ROUTED)
+      ((nexec (rfRead 102) Inst.routerHolds).2.withFrame ⟨⟨9, 0, 6, .int 150, 5⟩, [24]⟩) = (r, s2) ∧
+    s2.node.queue = (nexec (rfRead 102) Inst.routerHolds).2.node.queue ∧
+    s2.cur = (nexec (rfRead 102) Inst.routerHolds).2.cur ∧
+    nexec (netUpdate 103 0) Inst.routerHolds =
+      (match r with
+       | .ok _ => nexec (netUpdate 102 0) s2
+       | .error e => (.error e, s2)) :=
+  C05_local_forward_not_queued 100 0 [1] [] [1, 1] (by decide) (by decide) (by decide) (by decide) (by decide)
+    (by decide) Inst.routerHolds _ [9, 0, 0, 0, 6, 0, 150, 5, 24] ⟨⟨9, 0, 6, .int 150, 5⟩, [24]⟩
+    Inst.routerHolds_read (by decide +kernel) (by decide) (by decide) (by decide +kernel)
+    (by decide +kernel) (by decide +kernel)
+
+/-- **INSTANCES (kernel-evaluated runs, not a general theorem): a fragmented message over TWO hops, chain
+    `0o0 — 0o1 — 0o11`, boundary lengths of every fragment count.**  In `Example.three` (a `NetOk` network:
+    `Example.three_ok`; all radios fresh, all queues empty) the grandchild `0o11` writes the `n` bytes
+    `0, 1, …, n-1` with the user type 5 to the master `0o0`, for each
+    `n ∈ {25, 48, 49, 72, 73, 96, 97, 120, 121, 144}` (2..6 fragments, shortest and longest last fragment).  Then:
+    `write()` returns `True` and the caller's frame; the next `update()` of the router `0o1` (entered as the test
+    session does) returns normally, and afterwards
+    * the master's application queue has gained exactly one frame — origin `0o11`, type 5, the `n` bytes — and no
+      other node's has changed (`DeliveredOnce`);
+    * **the WHOLE queue object of every other node — the router's reassembly cache included — is what it was**:
+      the router forwarded all fragments without queueing or caching any;
+    * every RX FIFO is empty (the NETWORK_ACK frames the router originated per fragment were consumed or never
+      accepted; no copy of a fragment waits anywhere);
+    * the acknowledged fragment transmissions of the whole run (`okFragAir`: air-log records with `ok`, payload
+      type byte 148..150, in order) are exactly the payloads of the fragment plan of the message (`fragPlan`,
+      C11), each one once from the origin's radio 2 and then once from the router's radio 1 (`planAir`).
+    `_partial`: ONE network, ONE message content per length, ONE schedule, loss-free; no other network, content,
+    type, length or schedule is covered — the general statement is still open (see "what is missing" above). -/
+theorem C05_route_frag_two_hops_instance_partial : ∀ n ∈ [25, 48, 49, 72, 73, 96, 97, 120, 121, 144],
+    ∃ s1, nexec (apiNetWrite (val []) 5 (List.range n) AUTO_ROUTING) Example.three =
+        (.ok (true, callerFrame [1, 1] [] 6 5 (List.range n)), s1) ∧
+      ∃ r s2, nexec apiUpdate ((s1.ret).callAs 1) = (.ok r, s2) ∧
+        DeliveredOnce Example.three.nodes s2.nodes 0 (val [1, 1]) 5 (List.range n) ∧
+        (∀ j, j ≠ 0 → (s2.nodeAt j).queue = (Example.three.nodeAt j).queue) ∧
+        (∀ i, i < 3 → (s2.radioAt i).rxFifo = []) ∧
+        okFragAir s2.w = planAir (List.range n) 5 ⟨val [1, 1], val [], 6, .int 5, 0⟩ [2, 1] :=
+  fun n hn => routeRunB_sound (Inst.three_lens n hn)
+
+/-- **INSTANCES: two hops, the ends of the type ranges.**  `Example.three`, 60 bytes `0..59` (three fragments),
+    grandchild to master.  Types 0 and 64 (the origin awaits no NETWORK_ACK): as in
+    `C05_route_frag_two_hops_instance_partial`, delivery completes at the router's next `update()`.  Types 65, 100 and 127
+    (the origin waits for the NETWORK_ACK of the message): `write()` returns `True` and delivery — exactly once,
+    nobody else's queue object changed, all RX FIFOs empty, the fragment traffic = the plan once per hop — is
+    complete WHEN `write()` RETURNS.  Same limits: ONE network, ONE content, ONE schedule. -/
+theorem C05_route_frag_types_instance_partial :
+    (∀ t ∈ [(0 : Int), 64],
+      ∃ s1, nexec (apiNetWrite (val []) t (List.range 60) AUTO_ROUTING) Example.three =
+          (.ok (true, callerFrame [1, 1] [] 6 t (List.range 60)), s1) ∧
+        ∃ r s2, nexec apiUpdate ((s1.ret).callAs 1) = (.ok r, s2) ∧
+          DeliveredOnce Example.three.nodes s2.nodes 0 (val [1, 1]) t.toNat (List.range 60) ∧
+          (∀ j, j ≠ 0 → (s2.nodeAt j).queue = (Example.three.nodeAt j).queue) ∧
+          (∀ i, i < 3 → (s2.radioAt i).rxFifo = []) ∧
+          okFragAir s2.w = planAir (List.range 60) t.toNat ⟨val [1, 1], val [], 6, .int t.toNat, 0⟩ [2, 1]) ∧
+    (∀ t ∈ [(65 : Int), 100, 127],
+      ∃ s1, nexec (apiNetWrite (val []) t (List.range 60) AUTO_ROUTING) Example.three =
+          (.ok (true, callerFrame [1, 1] [] 6 t (List.range 60)), s1) ∧
+        DeliveredOnce Example.three.nodes s1.nodes 0 (val [1, 1]) t.toNat (List.range 60) ∧
+        (∀ j, j ≠ 0 → (s1.nodeAt j).queue = (Example.three.nodeAt j).queue) ∧
+        (∀ i, i < 3 → (s1.radioAt i).rxFifo = []) ∧
+        okFragAir s1.w = planAir (List.range 60) t.toNat ⟨val [1, 1], val [], 6, .int t.toNat, 0⟩ [2, 1]) :=
+  ⟨fun t ht => routeRunB_sound (Inst.three_types_noack t ht),
+   fun t ht => writeRunB_sound (Inst.three_types_ack t ht)⟩
+
+/-- **INSTANCES: two hops over a COMMON ANCESTOR (up, then down).**  `Example.fork` (master `0o0` with children
+    `0o1`, `0o2`; a `NetOk` network: `Example.fork_ok`): the child `0o1` writes `n ∈ {25, 60, 144}` bytes `0..n-1`,
+    type 5, to its sibling `0o2`; the master routes.  `write()` returns `True`; after the master's next `update()`
+    the sibling's queue has gained exactly the message, the queue objects of the master (the router) and of the
+    origin are unchanged, all RX FIFOs are empty, the fragment traffic is the plan, once from radio 1 and once from
+    radio 0 per fragment.  And for type 100 (60 bytes) all of that holds when `write()` returns.  Same limits. -/
+theorem C05_route_frag_fork_instance_partial :
+    (∀ n ∈ [25, 60, 144],
+      ∃ s1, nexec (apiNetWrite (val [2]) 5 (List.range n) AUTO_ROUTING) Example.fork =
+          (.ok (true, callerFrame [1] [2] 6 5 (List.range n)), s1) ∧
+        ∃ r s2, nexec apiUpdate ((s1.ret).callAs 0) = (.ok r, s2) ∧
+          DeliveredOnce Example.fork.nodes s2.nodes 2 (val [1]) 5 (List.range n) ∧
+          (∀ j, j ≠ 2 → (s2.nodeAt j).queue = (Example.fork.nodeAt j).queue) ∧
+          (∀ i, i < 3 → (s2.radioAt i).rxFifo = []) ∧
+          okFragAir s2.w = planAir (List.range n) 5 ⟨val [1], val [2], 6, .int 5, 0⟩ [1, 0]) ∧
+    (∃ s1, nexec (apiNetWrite (val [2]) 100 (List.range 60) AUTO_ROUTING) Example.fork =
+        (.ok (true, callerFrame [1] [2] 6 100 (List.range 60)), s1) ∧
+      DeliveredOnce Example.fork.nodes s1.nodes 2 (val [1]) 100 (List.range 60) ∧
+      (∀ j, j ≠ 2 → (s1.nodeAt j).queue = (Example.fork.nodeAt j).queue) ∧
+      (∀ i, i < 3 → (s1.radioAt i).rxFifo = []) ∧
+      okFragAir s1.w = planAir (List.range 60) 100 ⟨val [1], val [2], 6, .int 100, 0⟩ [1, 0]) :=
+  ⟨fun n hn => routeRunB_sound (Inst.fork_noack n hn), writeRunB_sound Inst.fork_ack⟩
+
+/-- **INSTANCES: THREE hops (two routers), upwards and downwards.**  `Example.Hops.four`
+    (`0o0 — 0o1 — 0o11 — 0o111`, `NetOk`: `Example.Hops.four_ok`).
+    (a) the great-grandchild writes `n ∈ {25, 60, 144}` bytes, type 5, to the master: `write()` returns `True`; after
+        the next `update()` of the first router `0o11` — inside which the second router and the master run —
+        the master's queue has gained exactly the message, the queue objects of BOTH routers and of the origin are
+        unchanged, all RX FIFOs are empty, each planned fragment was acknowledged once from radio 3, once from
+        radio 2, once from radio 1, in this order;
+    (b) the same message of 60 bytes with type 100: complete when `write()` returns;
+    (c) downwards: the master (`Inst.fourDown`: the same network with the master about to write) writes 60 bytes,
+        type 5, to the great-grandchild `0o111` (three hops) and to the grandchild `0o11` (two hops).
+    Same limits: ONE network, ONE content, ONE schedule each. -/
+theorem C05_route_frag_three_hops_instance_partial :
+    (∀ n ∈ [25, 60, 144],
+      ∃ s1, nexec (apiNetWrite (val []) 5 (List.range n) AUTO_ROUTING) Example.Hops.four =
+          (.ok (true, callerFrame [1, 1, 1] [] 8 5 (List.range n)), s1) ∧
+        ∃ r s2, nexec apiUpdate ((s1.ret).callAs 2) = (.ok r, s2) ∧
+          DeliveredOnce Example.Hops.four.nodes s2.nodes 0 (val [1, 1, 1]) 5 (List.range n) ∧
+          (∀ j, j ≠ 0 → (s2.nodeAt j).queue = (Example.Hops.four.nodeAt j).queue) ∧
+          (∀ i, i < 4 → (s2.radioAt i).rxFifo = []) ∧
+          okFragAir s2.w = planAir (List.range n) 5 ⟨val [1, 1, 1], val [], 8, .int 5, 0⟩ [3, 2, 1]) ∧
+    (∃ s1, nexec (apiNetWrite (val []) 100 (List.range 60) AUTO_ROUTING) Example.Hops.four =
+        (.ok (true, callerFrame [1, 1, 1] [] 8 100 (List.range 60)), s1) ∧
+      DeliveredOnce Example.Hops.four.nodes s1.nodes 0 (val [1, 1, 1]) 100 (List.range 60) ∧
+      (∀ j, j ≠ 0 → (s1.nodeAt j).queue = (Example.Hops.four.nodeAt j).queue) ∧
+      (∀ i, i < 4 → (s1.radioAt i).rxFifo = []) ∧
+      okFragAir s1.w = planAir (List.range 60) 100 ⟨val [1, 1, 1], val [], 8, .int 100, 0⟩ [3, 2, 1]) ∧
+    (∃ s1, nexec (apiNetWrite (val [1, 1, 1]) 5 (List.range 60) AUTO_ROUTING) Inst.fourDown =
+        (.ok (true, callerFrame [] [1, 1, 1] 8 5 (List.range 60)), s1) ∧
+      ∃ r s2, nexec apiUpdate ((s1.ret).callAs 1) = (.ok r, s2) ∧
+        DeliveredOnce Inst.fourDown.nodes s2.nodes 3 (val []) 5 (List.range 60) ∧
+        (∀ j, j ≠ 3 → (s2.nodeAt j).queue = (Inst.fourDown.nodeAt j).queue) ∧
+        (∀ i, i < 4 → (s2.radioAt i).rxFifo = []) ∧
+        okFragAir s2.w = planAir (List.range 60) 5 ⟨val [], val [1, 1, 1], 8, .int 5, 0⟩ [0, 1, 2]) ∧
+    (∃ s1, nexec (apiNetWrite (val [1, 1]) 5 (List.range 60) AUTO_ROUTING) Inst.fourDown =
+        (.ok (true, callerFrame [] [1, 1] 8 5 (List.range 60)), s1) ∧
+      ∃ r s2, nexec apiUpdate ((s1.ret).callAs 1) = (.ok r, s2) ∧
+        DeliveredOnce Inst.fourDown.nodes s2.nodes 2 (val []) 5 (List.range 60) ∧
+        (∀ j, j ≠ 2 → (s2.nodeAt j).queue = (Inst.fourDown.nodeAt j).queue) ∧
+        (∀ i, i < 4 → (s2.radioAt i).rxFifo = []) ∧
+        okFragAir s2.w = planAir (List.range 60) 5 ⟨val [], val [1, 1], 8, .int 5, 0⟩ [0, 1]) :=
+  ⟨fun n hn => routeRunB_sound (Inst.four_up n hn), writeRunB_sound Inst.four_up_ack,
+   routeRunB_sound Inst.four_down3, routeRunB_sound Inst.four_down2⟩
+
+/-- what `planAir` says, spelled out on the smallest instance: 25 bytes travel as two fragment payloads — type
+    148 with countdown 2 and 24 bytes, type 150 carrying the message type 5 and 1 byte — each acknowledged once
+    from the origin's radio 2 and once from the router's radio 1 -/
+example : planAir (List.range 25) 5 ⟨val [1, 1], val [], 6, .int 5, 0⟩ [2, 1] =
+    [(2, [9, 0, 0, 0, 6, 0, 148, 2] ++ List.range 24), (1, [9, 0, 0, 0, 6, 0, 148, 2] ++ List.range 24),
+     (2, [9, 0, 0, 0, 6, 0, 150, 5, 24]), (1, [9, 0, 0, 0, 6, 0, 150, 5, 24])] := by decide
+
+/-- **INSTANCES: ALL ordered pairs (origin, destination) of a seven-node tree of depth 3.**  `Example.sevenAt a`
+    (NrfProofs/C05ExampleSeven.lean): the tree `0o0 ─ {0o1 ─ {0o11 ─ 0o111, 0o21}, 0o2 ─ 0o12}`, every node built by
+    running the model's constructor, node `a` about to write; a `NetOk` network (`Example.seven_ok`).  For EVERY
+    `a ≠ d` among the seven nodes — 42 pairs: 12 neighbours, and 30 routes of 2..5 hops going up, down, or up to
+    a common ancestor (the master or `0o1`) and down — node `a` writes the 60 bytes `0..59` (three fragments), type
+    5, to node `d`.  Then: the node polled next is the first hop of the tree route (C04's `nextHopSpec`);
+    `write()` returns `True` and the caller's frame; that node's `update()` returns normally; node `d`'s queue has
+    gained exactly the message (`DeliveredOnce`); every other node's whole queue object is unchanged; all seven RX
+    FIFOs are empty; the acknowledged fragment traffic is the fragment plan, each payload once from each radio of
+    the route (origin first, then the routers in route order: `Example.rids7`).
+    Same limits as the other instance theorems: ONE network, ONE content, ONE type, ONE length, ONE schedule. -/
+theorem C05_route_frag_all_pairs_instance_partial : ∀ a d, a < 7 → d < 7 → a ≠ d →
+    Example.hop7 a d < 7 ∧
+    Example.tree7 (Example.hop7 a d) = nextHopSpec (Example.tree7 a) (Example.tree7 d) ∧
+    ∃ s1, nexec (apiNetWrite (val (Example.tree7 d)) 5 (List.range 60) AUTO_ROUTING) (Example.sevenAt a) =
+        (.ok (true, callerFrame (Example.tree7 a) (Example.tree7 d) (Example.sevenAt a).nextId 5 (List.range 60)),
+          s1) ∧
+      ∃ r s2, nexec apiUpdate ((s1.ret).callAs (Example.hop7 a d)) = (.ok r, s2) ∧
+        DeliveredOnce (Example.sevenAt a).nodes s2.nodes d (val (Example.tree7 a)) 5 (List.range 60) ∧
+        (∀ j, j ≠ d → (s2.nodeAt j).queue = ((Example.sevenAt a).nodeAt j).queue) ∧
+        (∀ i, i < (Example.sevenAt a).nodes.length → (s2.radioAt i).rxFifo = []) ∧
+        okFragAir s2.w = planAir (List.range 60) 5
+          ⟨val (Example.tree7 a), val (Example.tree7 d), (Example.sevenAt a).nextId, .int 5, 0⟩
+          (Example.rids7 a d) := by
+  intro a d ha hd had
+  have hhop : ∀ a ∈ List.range 7, ∀ d ∈ List.range 7, a ≠ d → Example.hop7 a d < 7 ∧
+      Example.tree7 (Example.hop7 a d) = nextHopSpec (Example.tree7 a) (Example.tree7 d) := by decide
+  obtain ⟨h1, h2⟩ := hhop a (List.mem_range.mpr ha) d (List.mem_range.mpr hd) had
+  refine ⟨h1, h2, ?_⟩
+  have hrun : Inst.pairRun a d = true := by
+    have hdm := List.mem_range.mpr hd
+    have : a ∈ [0, 1] ∨ a ∈ [2, 3, 4] ∨ a ∈ [5, 6] := by
+      simp only [List.mem_cons, List.not_mem_nil, or_false]
+      omega
+    rcases this with h | h | h
+    · exact Inst.pairs_D a h d hdm had
+    · exact Inst.pairs_E a h d hdm had
+    · exact Inst.pairs_F a h d hdm had
+  exact routeRunB_sound hrun
+
+/-- the routes of the seven-node tree, by length: 12 ordered pairs of neighbours, 12 of distance 2, 10 of
+    distance 3, 6 of distance 4, 2 of distance 5 (`0o111 ↔ 0o12`, four routers) -/
+example : ([1, 2, 3, 4, 5].map fun n => (((List.range 7).flatMap fun a => (List.range 7).map fun d => (a, d)).filter
+    fun p => p.1 ≠ p.2 ∧ dist (Example.tree7 p.1) (Example.tree7 p.2) = n).length) = [12, 12, 10, 6, 2] := by decide
+
+/-! ### the boundary lengths 0, 24 (last single frame), 25 (first fragmented), 144 (default `max_message_length`)
+
+The property ranges over "0..max_message_length bytes"; the delivery theorems above are stated with
+`msg.length ≤ MAX_FRAG_SIZE` (= 24; none of them asks for `1 ≤ msg.length`, and none asks for fragmentation
+to be enabled: with fragmentation off, messages of up to 24 bytes are covered by the same theorems) and
+`MAX_FRAG_SIZE < msg.length ≤ 144`.  The four corollaries below are INSTANTIATIONS of those theorems at the
+boundary lengths — stated separately so that an off-by-one in a bound (`<` for `≤`) would be visible as a failing
+corollary — each instantiated on a concrete network for both of its boundary values.  They add no new content. -/
+
+/-- **Empty message and 24-byte message, types 0..64, any tree route** (instantiation of
+    `C05_route_closed_partial` at `msg.length = 0` — a frame that is only its 8-byte header — and at
+    `msg.length = 24` — the longest single frame, 32 bytes on the air): delivered exactly once, intact, to no other
+    queue, `write()` returns `True`, all RX FIFOs empty afterwards.  Hypotheses and coverage: as
+    `C05_route_closed_partial` (ONE schedule, loss-free). -/
+theorem C05_route_boundary_closed_partial (cfg : AddrCfg) (hcfg : CfgOk cfg) (L : LinkCfg)
+    (tree : Nat → List Nat) (s : NetState) (a : Nat) (d : List Nat) (ty : Int) (msg : Bytes)
+    (hok : NetOk cfg L tree s) (hcur : s.cur = a) (hact : s.active = [a]) (ha : a < s.nodes.length)
+    (hsize : s.nodes.length ≤ 20000) (hndef : ∀ i, val (tree i) ≠ NETWORK_DEFAULT_ADDR)
+    (hd : IsNode d) (hxd : tree a ≠ d)
+    (hroute : ∀ k, 1 ≤ k → k ≤ dist (tree a) d →
+      ∃ j, j < s.nodes.length ∧ tree j = hops k (tree a) d ∧
+        NotDupFrame (s.radioAt j) (wireCopy (callerFrame (tree a) d s.nextId ty msg)))
+    (hquiet : ∀ i, i < s.nodes.length → (s.radioAt i).rxFifo = [])
+    (hty : 0 ≤ ty ∧ ty ≤ 64) (hbd : msg.length = 0 ∨ msg.length = 24)
+    (hmax : msg.length ≤ (s.nodeAt a).maxMessageLength)
+    (hacc : ∀ j, j < s.nodes.length → tree j = d →
+      Accepts (s.nodeAt j).queue (wireCopy (callerFrame (tree a) d s.nextId ty msg))) :
+    ∃ s1 j1 jd, j1 < s.nodes.length ∧ tree j1 = nextHopSpec (tree a) d ∧ jd < s.nodes.length ∧ tree jd = d ∧
+      nexec (apiNetWrite (val d) ty msg AUTO_ROUTING) s =
+        (.ok (true, callerFrame (tree a) d s.nextId ty msg), s1) ∧
+      ∃ r s2, nexec apiUpdate ((s1.ret).callAs j1) = (.ok r, s2) ∧
+        DeliveredOnce s.nodes s2.nodes jd (val (tree a)) ty.toNat msg ∧
+        ∀ i, i < s.nodes.length → (s2.radioAt i).rxFifo = [] :=
+  C05_route_closed_partial cfg hcfg L tree s a d ty msg hok hcur hact ha hsize hndef hd hxd hroute hquiet hty
+    (by unfold MAX_FRAG_SIZE; omega) hmax hacc
+
+/-- non-vacuity, length 0: the grandchild of `Example.three` writes the EMPTY message, type 7, to the master
+    (two hops) -/
+example : ∃ s1 j1 jd, j1 < 3 ∧ Example.tree3 j1 = [1] ∧ jd < 3 ∧ Example.tree3 jd = [] ∧
+    nexec (apiNetWrite (val []) 7 [] AUTO_ROUTING) Example.three =
+      (.ok (true, callerFrame [1, 1] [] 6 7 []), s1) ∧
+    ∃ r s2, nexec apiUpdate ((s1.ret).callAs j1) = (.ok r, s2) ∧
+      DeliveredOnce Example.three.nodes s2.nodes jd (val [1, 1]) 7 [] ∧
+      ∀ i, i < 3 → (s2.radioAt i).rxFifo = [] :=
+  C05_route_boundary_closed_partial {} (by decide) Example.L Example.tree3 Example.three 2 [] 7 []
+    Example.three_ok rfl rfl (by decide) (by decide) three_ndef (by decide) (by decide) (three_route _) three_quiet
+    (by decide) (Or.inl rfl) (by decide) (three_acc _)
+
+/-- non-vacuity, length 24: the same with the 24 bytes `0, 1, …, 23` -/
+example : ∃ s1 j1 jd, j1 < 3 ∧ Example.tree3 j1 = [1] ∧ jd < 3 ∧ Example.tree3 jd = [] ∧
+    nexec (apiNetWrite (val []) 7 (List.range 24) AUTO_ROUTING) Example.three =
+      (.ok (true, callerFrame [1, 1] [] 6 7 (List.range 24)), s1) ∧
+    ∃ r s2, nexec apiUpdate ((s1.ret).callAs j1) = (.ok r, s2) ∧
+      DeliveredOnce Example.three.nodes s2.nodes jd (val [1, 1]) 7 (List.range 24) ∧
+      ∀ i, i < 3 → (s2.radioAt i).rxFifo = [] :=
+  C05_route_boundary_closed_partial {} (by decide) Example.L Example.tree3 Example.three 2 [] 7 (List.range 24)
+    Example.three_ok rfl rfl (by decide) (by decide) three_ndef (by decide) (by decide) (three_route _) three_quiet
+    (by decide) (Or.inr (by decide)) (by decide) (three_acc _)
+
+/-- **Empty message and 24-byte message, acknowledged types 65..191, any tree route of two or more hops**
+    (instantiation of `C05_route_ack_closed_partial` at `msg.length = 0` and `msg.length = 24`).  Hypotheses and
+    coverage as there. -/
+theorem C05_route_ack_boundary_closed_partial (cfg : AddrCfg) (hcfg : CfgOk cfg) (L : LinkCfg)
+    (tree : Nat → List Nat) (s : NetState) (a : Nat) (d : List Nat) (ty : Int) (msg : Bytes)
+    (hok : NetOk cfg L tree s) (hcur : s.cur = a) (hact : s.active = [a]) (ha : a < s.nodes.length)
+    (hsize : s.nodes.length ≤ 20000) (hndef : ∀ i, val (tree i) ≠ NETWORK_DEFAULT_ADDR)
+    (h2 : 2 ≤ dist (tree a) d)
+    (hroute : ∀ k, 1 ≤ k → k ≤ dist (tree a) d →
+      ∃ j, j < s.nodes.length ∧ tree j = hops k (tree a) d ∧
+        NotDupFrame (s.radioAt j) (wireCopy (callerFrame (tree a) d s.nextId ty msg)))
+    (horig : NotDupFrame (s.radioAt a) (ackOf (wireCopy (callerFrame (tree a) d s.nextId ty msg))))
+    (hquiet : ∀ i, i < s.nodes.length → (s.radioAt i).rxFifo = [])
+    (hty : 65 ≤ ty ∧ ty ≤ 191)
+    (hsys : ty ≤ 127 ∨ ((∀ j, j < s.nodes.length → tree j = d → (s.nodeAt j).retSysMsg = false) ∧
+      ty ≠ 128 ∧ ty ≠ 130 ∧ ty ≠ 131 ∧ ty ≠ 148 ∧ ty ≠ 149 ∧ ty ≠ 150))
+    (hbd : msg.length = 0 ∨ msg.length = 24)
+    (hmax : msg.length ≤ (s.nodeAt a).maxMessageLength)
+    (hacc : ∀ j, j < s.nodes.length → tree j = d →
+      Accepts (s.nodeAt j).queue (wireCopy (callerFrame (tree a) d s.nextId ty msg))) :
+    ∃ s1 jd, jd < s.nodes.length ∧ tree jd = d ∧
+      nexec (apiNetWrite (val d) ty msg AUTO_ROUTING) s =
+        (.ok (true, callerFrame (tree a) d s.nextId ty msg), s1) ∧
+      DeliveredOnce s.nodes s1.nodes jd (val (tree a)) ty.toNat msg ∧
+      ∀ i, i < s.nodes.length → (s1.radioAt i).rxFifo = [] :=
+  C05_route_ack_closed_partial cfg hcfg L tree s a d ty msg hok hcur hact ha hsize hndef h2 hroute horig hquiet
+    hty hsys (by unfold MAX_FRAG_SIZE; omega) hmax hacc
+
+/-- non-vacuity, length 0: the great-grandchild of `Example.Hops.four` writes the EMPTY message, type 100, to
+    the master (three hops) -/
+example : ∃ s1 jd, jd < 4 ∧ Example.Hops.tree4 jd = [] ∧
+    nexec (apiNetWrite (val []) 100 [] AUTO_ROUTING) Example.Hops.four =
+      (.ok (true, callerFrame [1, 1, 1] [] 8 100 []), s1) ∧
+    DeliveredOnce Example.Hops.four.nodes s1.nodes jd (val [1, 1, 1]) 100 [] ∧
+    ∀ i, i < 4 → (s1.radioAt i).rxFifo = [] :=
+  C05_route_ack_boundary_closed_partial {} (by decide) Example.L Example.Hops.tree4 Example.Hops.four 3 [] 100 []
+    Example.Hops.four_ok rfl rfl (by decide) (by decide) Example.Hops.four_ndef (by decide) (four_route _)
+    (NotDupFrame.of_none (by decide)) four_quiet (by decide) (Or.inl (by decide)) (Or.inl rfl) (by decide)
+    (four_acc _)
+
+/-- non-vacuity, length 24 -/
+example : ∃ s1 jd, jd < 4 ∧ Example.Hops.tree4 jd = [] ∧
+    nexec (apiNetWrite (val []) 100 (List.range 24) AUTO_ROUTING) Example.Hops.four =
+      (.ok (true, callerFrame [1, 1, 1] [] 8 100 (List.range 24)), s1) ∧
+    DeliveredOnce Example.Hops.four.nodes s1.nodes jd (val [1, 1, 1]) 100 (List.range 24) ∧
+    ∀ i, i < 4 → (s1.radioAt i).rxFifo = [] :=
+  C05_route_ack_boundary_closed_partial {} (by decide) Example.L Example.Hops.tree4 Example.Hops.four 3 [] 100
+    (List.range 24)
+    Example.Hops.four_ok rfl rfl (by decide) (by decide) Example.Hops.four_ndef (by decide) (four_route _)
+    (NotDupFrame.of_none (by decide)) four_quiet (by decide) (Or.inl (by decide)) (Or.inr (by decide)) (by decide)
+    (four_acc _)
+
+/-- **Empty message and 24-byte message between neighbours in a full network, every user type 0..127**
+    (instantiation of `C05_neighbours_closed_partial` at `msg.length = 0` and `msg.length = 24`). -/
+theorem C05_neighbours_boundary_closed_partial (cfg : AddrCfg) (hcfg : CfgOk cfg) (L : LinkCfg)
+    (tree : Nat → List Nat) (s : NetState) (a b : Nat) (ty : Int) (msg : Bytes)
+    (hok : NetOk cfg L tree s) (hcur : s.cur = a) (hact : s.active = [a])
+    (ha : a < s.nodes.length) (hb : b < s.nodes.length) (hab : a ≠ b) (hsize : s.nodes.length ≤ 100000)
+    (hadj : nextHopSpec (tree a) (tree b) = tree b)
+    (hdup : NotDupFrame (s.radioAt b) (wireCopy (callerFrame (tree a) (tree b) s.nextId ty msg)))
+    (hquiet : ∀ i, i < s.nodes.length → (s.radioAt i).rxFifo = [])
+    (hty : 0 ≤ ty ∧ ty ≤ 127) (hbd : msg.length = 0 ∨ msg.length = 24)
+    (hmax : msg.length ≤ (s.nodeAt a).maxMessageLength)
+    (hroom : ((s.nodeAt b).queue.frames.length : Int) < (s.nodeAt b).queue.maxSize)
+    (hnew : ∀ g ∈ (s.nodeAt b).queue.frames, ¬ (g.header.fromNode = val (tree a) ∧
+      g.header.frameId = s.nextId &&& 0xFFFF ∧ g.header.ty = ty.toNat)) :
+    ∃ s1 s2, nexec (apiNetWrite (val (tree b)) ty msg AUTO_ROUTING) s =
+        (.ok (true, callerFrame (tree a) (tree b) s.nextId ty msg), s1) ∧
+      nexec apiUpdate ((s1.ret).callAs b) = (.ok ty.toNat, s2) ∧
+      DeliveredOnce s.nodes s2.nodes b (val (tree a)) ty.toNat msg ∧
+      ∀ i, i < s.nodes.length → (s2.radioAt i).rxFifo = [] :=
+  C05_neighbours_closed_partial cfg hcfg L tree s a b ty msg hok hcur hact ha hb hab hsize hadj hdup hquiet hty
+    (by unfold MAX_FRAG_SIZE; omega) hmax hroom hnew
+
+/-- non-vacuity, length 0: in `Example.three` the grandchild writes the EMPTY message, type 127 (the last user
+    type), to its parent while the master listens -/
+example : ∃ s1 s2,
+    nexec (apiNetWrite (val [1]) 127 [] AUTO_ROUTING) Example.three =
+      (.ok (true, callerFrame [1, 1] [1] 6 127 []), s1) ∧
+    nexec apiUpdate ((s1.ret).callAs 1) = (.ok 127, s2) ∧
+    DeliveredOnce Example.three.nodes s2.nodes 1 (val [1, 1]) 127 [] ∧
+    ∀ i, i < 3 → (s2.radioAt i).rxFifo = [] :=
+  C05_neighbours_boundary_closed_partial {} (by decide) Example.L Example.tree3 Example.three 2 1 127 []
+    Example.three_ok rfl rfl (by decide) (by decide) (by decide) (by decide) (by decide)
+    (NotDupFrame.of_none (by decide)) three_quiet
+    (by decide) (Or.inl rfl) (by decide) (by decide) (by intro g hg; cases hg)
+
+/-- non-vacuity, length 24, type 0 (the first user type) -/
+example : ∃ s1 s2,
+    nexec (apiNetWrite (val [1]) 0 (List.range 24) AUTO_ROUTING) Example.three =
+      (.ok (true, callerFrame [1, 1] [1] 6 0 (List.range 24)), s1) ∧
+    nexec apiUpdate ((s1.ret).callAs 1) = (.ok 0, s2) ∧
+    DeliveredOnce Example.three.nodes s2.nodes 1 (val [1, 1]) 0 (List.range 24) ∧
+    ∀ i, i < 3 → (s2.radioAt i).rxFifo = [] :=
+  C05_neighbours_boundary_closed_partial {} (by decide) Example.L Example.tree3 Example.three 2 1 0 (List.range 24)
+    Example.three_ok rfl rfl (by decide) (by decide) (by decide) (by decide) (by decide)
+    (NotDupFrame.of_none (by decide)) three_quiet
+    (by decide) (Or.inr (by decide)) (by decide) (by decide) (by intro g hg; cases hg)
+
+/-- **25-byte message (the shortest fragmented one: 24 + 1 bytes in two frames) and 144-byte message (the
+    default `max_message_length`: six full fragments) between neighbours in a full network, user types 0..127**
+    (instantiation of `C05_neighbours_frag_closed_partial` at `msg.length = 25` and `msg.length = 144`). -/
+theorem C05_neighbours_frag_boundary_closed_partial (cfg : AddrCfg) (hcfg : CfgOk cfg) (L : LinkCfg)
+    (tree : Nat → List Nat) (s : NetState) (a b : Nat) (ty : Int) (msg : Bytes)
+    (hok : NetOk cfg L tree s) (hcur : s.cur = a) (hact : s.active = [a])
+    (ha : a < s.nodes.length) (hb : b < s.nodes.length) (hab : a ≠ b) (hsize : s.nodes.length ≤ 90000)
+    (hadj : nextHopSpec (tree a) (tree b) = tree b)
+    (hfrag_a : (s.nodeAt a).fragEnabled = true) (hfrag_b : (s.nodeAt b).queue.frag = true)
+    (hdup : NotDupFrame (s.radioAt b) ⟨⟨val (tree a), val (tree b), s.nextId &&& 0xFFFF, .int MSG_FRAG_FIRST,
+      fragTotal msg.length⟩, msg.take MAX_FRAG_SIZE⟩)
+    (hquiet : ∀ i, i < s.nodes.length → (s.radioAt i).rxFifo = [])
+    (hty : 0 ≤ ty ∧ ty ≤ 127) (hbd : msg.length = 25 ∨ msg.length = 144)
+    (hmax : msg.length ≤ (s.nodeAt a).maxMessageLength)
+    (hroom : ((s.nodeAt b).queue.frames.length : Int) < (s.nodeAt b).queue.maxSize)
+    (hnew : ∀ g ∈ (s.nodeAt b).queue.frames, ¬ (g.header.fromNode = val (tree a) ∧
+      g.header.frameId = s.nextId &&& 0xFFFF ∧ g.header.ty = ty.toNat)) :
+    ∃ s1 s2, nexec (apiNetWrite (val (tree b)) ty msg AUTO_ROUTING) s =
+        (.ok (true, callerFrame (tree a) (tree b) s.nextId ty msg), s1) ∧
+      nexec apiUpdate ((s1.ret).callAs b) = (.ok MSG_FRAG_LAST, s2) ∧
+      DeliveredOnce s.nodes s2.nodes b (val (tree a)) ty.toNat msg ∧
+      ∀ i, i < s.nodes.length → (s2.radioAt i).rxFifo = [] :=
+  C05_neighbours_frag_closed_partial cfg hcfg L tree s a b ty msg hok hcur hact ha hb hab hsize hadj hfrag_a hfrag_b
+    hdup hquiet hty (by unfold MAX_FRAG_SIZE; omega) (by omega) hmax hroom hnew
+
+/-- non-vacuity, length 25 (two frames: 24 + 1 bytes), in `Example.three`, grandchild to parent, type 100 -/
+example : ∃ s1 s2,
+    nexec (apiNetWrite (val [1]) 100 (List.range 25) AUTO_ROUTING) Example.three =
+      (.ok (true, callerFrame [1, 1] [1] 6 100 (List.range 25)), s1) ∧
+    nexec apiUpdate ((s1.ret).callAs 1) = (.ok 150, s2) ∧
+    DeliveredOnce Example.three.nodes s2.nodes 1 (val [1, 1]) 100 (List.range 25) ∧
+    ∀ i, i < 3 → (s2.radioAt i).rxFifo = [] :=
+  C05_neighbours_frag_boundary_closed_partial {} (by decide) Example.L Example.tree3 Example.three 2 1 100
+    (List.range 25)
+    Example.three_ok rfl rfl (by decide) (by decide) (by decide) (by decide) (by decide)
+    (by decide) (by decide) (NotDupFrame.of_none (by decide)) three_quiet
+    (by decide) (Or.inl (by decide)) (by decide) (by decide) (by intro g hg; cases hg)
+
+/-- non-vacuity, length 144 (six frames of 24 bytes; `max_message_length` of the example nodes is 144) -/
+example : ∃ s1 s2,
+    nexec (apiNetWrite (val [1]) 100 (List.range 144) AUTO_ROUTING) Example.three =
+      (.ok (true, callerFrame [1, 1] [1] 6 100 (List.range 144)), s1) ∧
+    nexec apiUpdate ((s1.ret).callAs 1) = (.ok 150, s2) ∧
+    DeliveredOnce Example.three.nodes s2.nodes 1 (val [1, 1]) 100 (List.range 144) ∧
+    ∀ i, i < 3 → (s2.radioAt i).rxFifo = [] :=
+  C05_neighbours_frag_boundary_closed_partial {} (by decide) Example.L Example.tree3 Example.three 2 1 100
+    (List.range 144)
+    Example.three_ok rfl rfl (by decide) (by decide) (by decide) (by decide) (by decide)
+    (by decide) (by decide) (NotDupFrame.of_none (by decide)) three_quiet
+    (by decide) (Or.inr List.length_range) (by rw [List.length_range]; decide) (by decide)
+    (by intro g hg; cases hg)
+
+/-! ### "with fragmentation off, messages up to 24 bytes behave the same"
+
+`fragmentation = False` sets `max_message_length = 24` and replaces the reassembling queue by the plain one
+(`apiSetFragmentation`).  None of the single-frame theorems above asks for fragmentation to be on anywhere, so
+they cover that configuration; the two corollaries below say it in the property's terms: at a sender whose
+`max_message_length` is 24 — as the setter leaves it — EVERY message that `max_message_length` admits (0..24
+bytes) is delivered as stated, whatever the fragmentation flags of the nodes are.  The examples instantiate them
+on the chain with fragmentation off at ALL three nodes (`Example.threeNoFrag`, `Example.threeNoFrag_off`). -/
+
+/-- **Fragmentation off at the sender (`max_message_length = 24`): every admitted message, types 0..64, any tree
+    route** — `C05_route_closed_partial` with `msg.length ≤ 24` derived from `msg.length ≤ max_message_length = 24`
+    (one hypothesis replaced, nothing else; same ONE schedule, loss-free). -/
+theorem C05_route_fragoff_closed_partial (cfg : AddrCfg) (hcfg : CfgOk cfg) (L : LinkCfg)
+    (tree : Nat → List Nat) (s : NetState) (a : Nat) (d : List Nat) (ty : Int) (msg : Bytes)
+    (hok : NetOk cfg L tree s) (hcur : s.cur = a) (hact : s.active = [a]) (ha : a < s.nodes.length)
+    (hsize : s.nodes.length ≤ 20000) (hndef : ∀ i, val (tree i) ≠ NETWORK_DEFAULT_ADDR)
+    (hd : IsNode d) (hxd : tree a ≠ d)
+    (hroute : ∀ k, 1 ≤ k → k ≤ dist (tree a) d →
+      ∃ j, j < s.nodes.length ∧ tree j = hops k (tree a) d ∧
+        NotDupFrame (s.radioAt j) (wireCopy (callerFrame (tree a) d s.nextId ty msg)))
+    (hquiet : ∀ i, i < s.nodes.length → (s.radioAt i).rxFifo = [])
+    (hty : 0 ≤ ty ∧ ty ≤ 64) (hoff : (s.nodeAt a).maxMessageLength = 24)
+    (hmax : msg.length ≤ (s.nodeAt a).maxMessageLength)
+    (hacc : ∀ j, j < s.nodes.length → tree j = d →
+      Accepts (s.nodeAt j).queue (wireCopy (callerFrame (tree a) d s.nextId ty msg))) :
+    ∃ s1 j1 jd, j1 < s.nodes.length ∧ tree j1 = nextHopSpec (tree a) d ∧ jd < s.nodes.length ∧ tree jd = d ∧
+      nexec (apiNetWrite (val d) ty msg AUTO_ROUTING) s =
+        (.ok (true, callerFrame (tree a) d s.nextId ty msg), s1) ∧
+      ∃ r s2, nexec apiUpdate ((s1.ret).callAs j1) = (.ok r, s2) ∧
+        DeliveredOnce s.nodes s2.nodes jd (val (tree a)) ty.toNat msg ∧
+        ∀ i, i < s.nodes.length → (s2.radioAt i).rxFifo = [] :=
+  C05_route_closed_partial cfg hcfg L tree s a d ty msg hok hcur hact ha hsize hndef hd hxd hroute hquiet hty
+    (by unfold MAX_FRAG_SIZE; omega) hmax hacc
+
+/-- non-vacuity on the chain with fragmentation OFF at all three nodes: the grandchild writes the longest message
+    it admits, 24 bytes, type 7, to the master over two hops -/
+example : ∃ s1 j1 jd, j1 < 3 ∧ Example.tree3 j1 = [1] ∧ jd < 3 ∧ Example.tree3 jd = [] ∧
+    nexec (apiNetWrite (val []) 7 (List.range 24) AUTO_ROUTING) Example.threeNoFrag =
+      (.ok (true, callerFrame [1, 1] [] 6 7 (List.range 24)), s1) ∧
+    ∃ r s2, nexec apiUpdate ((s1.ret).callAs j1) = (.ok r, s2) ∧
+      DeliveredOnce Example.threeNoFrag.nodes s2.nodes jd (val [1, 1]) 7 (List.range 24) ∧
+      ∀ i, i < 3 → (s2.radioAt i).rxFifo = [] :=
+  C05_route_fragoff_closed_partial {} (by decide) Example.L Example.tree3 Example.threeNoFrag 2 [] 7 (List.range 24)
+    Example.threeNoFrag_ok rfl rfl (by decide) (by decide) three_ndef (by decide) (by decide)
+    (by
+      intro k hk1 hk2
+      have hd : dist (Example.tree3 2) [] = 2 := by decide
+      rw [hd] at hk2
+      have : k = 1 ∨ k = 2 := by omega
+      rcases this with rfl | rfl
+      · exact ⟨1, by decide, by decide, NotDupFrame.of_none (by decide)⟩
+      · exact ⟨0, by decide, by decide, NotDupFrame.of_none (by decide)⟩)
+    (by
+      intro i hi
+      rcases Example.threeNoFrag_lt i hi with rfl | rfl | rfl <;> decide)
+    (by decide) (by decide) (by decide)
+    (by
+      intro j hj htj
+      rcases Example.threeNoFrag_lt j hj with rfl | rfl | rfl
+      · exact ⟨by decide, by intro g hg; cases hg⟩
+      · exact absurd htj (by decide)
+      · exact absurd htj (by decide))
+
+/-- **Fragmentation off at the sender: every admitted message between neighbours in a full network, every user
+    type 0..127** — `C05_neighbours_closed_partial` with `msg.length ≤ 24` derived from
+    `msg.length ≤ max_message_length = 24`. -/
+theorem C05_neighbours_fragoff_closed_partial (cfg : AddrCfg) (hcfg : CfgOk cfg) (L : LinkCfg)
+    (tree : Nat → List Nat) (s : NetState) (a b : Nat) (ty : Int) (msg : Bytes)
+    (hok : NetOk cfg L tree s) (hcur : s.cur = a) (hact : s.active = [a])
+    (ha : a < s.nodes.length) (hb : b < s.nodes.length) (hab : a ≠ b) (hsize : s.nodes.length ≤ 100000)
+    (hadj : nextHopSpec (tree a) (tree b) = tree b)
+    (hdup : NotDupFrame (s.radioAt b) (wireCopy (callerFrame (tree a) (tree b) s.nextId ty msg)))
+    (hquiet : ∀ i, i < s.nodes.length → (s.radioAt i).rxFifo = [])
+    (hty : 0 ≤ ty ∧ ty ≤ 127) (hoff : (s.nodeAt a).maxMessageLength = 24)
+    (hmax : msg.length ≤ (s.nodeAt a).maxMessageLength)
+    (hroom : ((s.nodeAt b).queue.frames.length : Int) < (s.nodeAt b).queue.maxSize)
+    (hnew : ∀ g ∈ (s.nodeAt b).queue.frames, ¬ (g.header.fromNode = val (tree a) ∧
+      g.header.frameId = s.nextId &&& 0xFFFF ∧ g.header.ty = ty.toNat)) :
+    ∃ s1 s2, nexec (apiNetWrite (val (tree b)) ty msg AUTO_ROUTING) s =
+        (.ok (true, callerFrame (tree a) (tree b) s.nextId ty msg), s1) ∧
+      nexec apiUpdate ((s1.ret).callAs b) = (.ok ty.toNat, s2) ∧
+      DeliveredOnce s.nodes s2.nodes b (val (tree a)) ty.toNat msg ∧
+      ∀ i, i < s.nodes.length → (s2.radioAt i).rxFifo = [] :=
+  C05_neighbours_closed_partial cfg hcfg L tree s a b ty msg hok hcur hact ha hb hab hsize hadj hdup hquiet hty
+    (by unfold MAX_FRAG_SIZE; omega) hmax hroom hnew
+
+/-- non-vacuity, fragmentation off at all three nodes: the grandchild writes 24 bytes, type 100, to its parent -/
+example : ∃ s1 s2,
+    nexec (apiNetWrite (val [1]) 100 (List.range 24) AUTO_ROUTING) Example.threeNoFrag =
+      (.ok (true, callerFrame [1, 1] [1] 6 100 (List.range 24)), s1) ∧
+    nexec apiUpdate ((s1.ret).callAs 1) = (.ok 100, s2) ∧
+    DeliveredOnce Example.threeNoFrag.nodes s2.nodes 1 (val [1, 1]) 100 (List.range 24) ∧
+    ∀ i, i < 3 → (s2.radioAt i).rxFifo = [] :=
+  C05_neighbours_fragoff_closed_partial {} (by decide) Example.L Example.tree3 Example.threeNoFrag 2 1 100
+    (List.range 24)
+    Example.threeNoFrag_ok rfl rfl (by decide) (by decide) (by decide) (by decide) (by decide)
+    (NotDupFrame.of_none (by decide))
+    (by
+      intro i hi
+      rcases Example.threeNoFrag_lt i hi with rfl | rfl | rfl <;> decide)
+    (by decide) (by decide) (by decide) (by decide) (by intro g hg; cases hg)
 
 end Nrf.Props.C05
